@@ -58,6 +58,15 @@ def gen_block(g, idx, atypes):
             inter["angles"].append({"atoms": tri, "params": ["1", "60", "75"], "meta": {}})
     if n == 4 and shape == "chain" and g.random() < 0.4:
         inter["dihedrals"].append({"atoms": [0, 1, 2, 3], "params": ["1", "180", "2.5", "2"], "meta": {}})
+    if g.random() < 0.25:
+        # refinement / position restraint directives (no edges, plain interaction lines)
+        inter["position_restraints"] = [{"atoms": [0], "params": ["1", "1000", "1000", "1000"],
+                                         "meta": {"ifdef": "POSRES"} if g.random() < 0.7 else {}}]
+        if n >= 2 and g.random() < 0.6:
+            inter["distance_restraints"] = [{"atoms": [0, n - 1], "params": ["1", "0", "1", "0.2", "0.3", "0.4", "1.0"],
+                                             "meta": {}}]
+        if n >= 2 and g.random() < 0.4:
+            inter["angle_restraints_z"] = [{"atoms": [0, 1], "params": ["1", "90", "50", "1"], "meta": {}}]
     return {"name": name, "atoms": atoms, "inter": inter, "nrexcl": g.choice([1, 1, 1, 2, 3])}
 
 
@@ -118,6 +127,25 @@ def gen_ff(g, nblocks=None, uniform_nrexcl=True, itp_p=0.2):
             links.append({"resnames": names, "sections": {
                 "bonds": [{"atoms": [a, "*" + b], "params": ["6", str(round(g.uniform(0.4, 0.7), 3)), "1500"], "meta": {}}]}})
     for X in blocks:
+        if len(X["atoms"]) >= 2 and g.random() < 0.15:
+            # a link that selects its atoms on an attribute and replaces that very attribute on the first one
+            # (first atom - first atom: no other generated link defines a bond over this atom pair)
+            a = X["atoms"][0]
+            links.append({"resnames": names, "replace_link": True, "sections": {
+                "bonds": [{"atoms": [a["name"] + ' {"atype": "%s", "replace": {"atype": "%sq"}}' % (a["atype"], a["atype"]),
+                                     ">" + a["name"] + ' {"atype": "%s"}' % a["atype"]],
+                           "params": ["6", "0.55", "120"], "meta": {}}]}})
+        if g.random() < 0.2:
+            # a restraint directive inside the link that also bonds the two residues (a link without any edge between
+            # its residues would match non-neighbouring residues - a degenerate definition that is not generated)
+            lx, fx = X["atoms"][-1]["name"], X["atoms"][0]["name"]
+            for l in links:
+                bonds = l["sections"].get("bonds") or l["sections"].get("constraints") or []
+                if bonds and bonds[0]["atoms"] == [lx, ">" + fx]:
+                    l["sections"]["distance_restraints"] = [{"atoms": [lx, ">" + fx],
+                                                             "params": ["1", "1", "1", "0.3", "0.4", "0.5", "1.0"], "meta": {}}]
+                    break
+    for X in blocks:
         if g.random() < 0.3:
             # three-residue link along a chain of equal residues
             a = X["atoms"][0]["name"]
@@ -149,8 +177,9 @@ def render_item(ff, item):
         out += ["[ moleculetype ]", f"{b['name']} {b['nrexcl']}", "[ atoms ]"]
         for k, a in enumerate(b["atoms"]):
             out.append(f"{k + 1} {a['atype']} 1 {b['name']} {a['name']} {a['cgnr']} {a['charge']} {a['mass']}")
-        for sec in ("bonds", "constraints", "angles", "dihedrals"):
-            its = list(b["inter"][sec])
+        for sec in ("bonds", "constraints", "angles", "dihedrals", "position_restraints", "distance_restraints",
+                    "angle_restraints_z"):
+            its = list(b["inter"].get(sec, []))
             if b.get("itp"):
                 its += b.get("dangling", {}).get(sec, [])
             if its:
@@ -230,7 +259,10 @@ def graph_json(rg, keys=None, node_order=None, edge_order=None, flip=None, resid
         a, b = rg["edges"][ei]
         if ei in flip:
             a, b = b, a
-        edges.append({"source": keys[a], "target": keys[b]})
+        edge = {"source": keys[a], "target": keys[b]}
+        if rg.get("edge_attrs"):
+            edge.update(rg["edge_attrs"][ei])
+        edges.append(edge)
     return json.dumps({"directed": False, "multigraph": False, "graph": {}, "nodes": nodes, "edges": edges}, indent=1)
 
 
@@ -243,3 +275,28 @@ def seq_list(rg):
         else:
             out.append([r, 1])
     return [f"{r}:{c}" for r, c in out]
+
+
+def gen_ff_linktype(g):
+    """one block; two links that look the same at the residue level and differ only in the linktype of their edge
+    (and in the atoms they bond); residue graph edges carry one of the two linktypes"""
+    atypes = ["P0", "P1"]
+    b = gen_block(g, 0, atypes)
+    while len(b["atoms"]) < 3:
+        b = gen_block(g, 0, atypes)
+    b["itp"] = False
+    names = [b["name"]]
+    a0, a1, al = b["atoms"][0]["name"], b["atoms"][1]["name"], b["atoms"][-1]["name"]
+    links = [
+        {"resnames": names, "sections": {"bonds": [{"atoms": [al, ">" + a0], "params": ["1", "0.37", "6500"], "meta": {}}],
+                                         "edges": [{"atoms": [al, ">" + a0], "params": [], "meta": {"linktype": "a16"}}]}},
+        {"resnames": names, "sections": {"bonds": [{"atoms": [a1, ">" + a0], "params": ["1", "0.32", "5500"], "meta": {}}],
+                                         "edges": [{"atoms": [a1, ">" + a0], "params": [], "meta": {"linktype": "a13"}}]}},
+    ]
+    files = [[["block", 0]], [["link", 0]], [["link", 1]]] if g.random() < 0.5 else [[["block", 0], ["link", 0], ["link", 1]]]
+    ff = {"atypes": atypes, "blocks": [b], "links": links, "files": files}
+    n = g.randint(3, 8)
+    edges = [[g.randrange(k), k] for k in range(1, n)] if g.random() < 0.6 else [[k, k + 1] for k in range(n - 1)]
+    rg = {"shape": "tree", "resnames": [b["name"]] * n, "edges": edges,
+          "edge_attrs": [{"linktype": g.choice(["a16", "a13"])} for _ in edges]}
+    return ff, rg
